@@ -7,7 +7,7 @@
                                                   other side of a many-to-many, `item.delete()`)
     SetInstance.add / SetInstance.remove       -> `add` / `remove`  (one item; a call with n items does the same bookkeeping
                                                   n times: `count ±= len(items)`, set unions / differences)
-    Set.load(obj, items) inside add / remove   -> `partialLoad`
+    Set.load(obj, items) inside add / remove   -> arrives as preceding `seen` / `loadAll` operations (observed on the real code)
     Set.load(obj) (copy, len, iteration)       -> `loadAll`
     SetInstance.count                          -> `count`  (cached `setdata.count`, else database count + len(added) − len(removed))
     SessionCache.flush / _calc_modified_m2m    -> `flush`  (the pending changes reach the database; `added = removed = None`)
